@@ -1154,6 +1154,34 @@ def check_accounting(ctx: Ctx, markdown_only: bool = False) -> None:
             ctx.ob("R-ACCT", f"{caller.qual} -> {callee.qual} :: width", ok,
                    "the width must be handed down unchanged: the indents are accounted for separately (initial_column / subsequent_offset), "
                    "so subtracting them from the width counts them twice; width is " + ", ".join(fmt_origin(o) for o in org), where(caller, c))
+    # fill_text -> wrap_paragraph: whichever indent a paragraph gets (first-line or continuation, hanging modes switch between
+    # them), it is built on the caller's extra indent - on every alternative, not only on the usual one
+    if not markdown_only and "extra_indent" in ft.params:
+        fflow = prog.flow(ft)
+
+        def alternatives(e: ast.AST, at: Node, depth: int = 0) -> list[tuple[ast.AST, Node]]:
+            if isinstance(e, ast.IfExp):
+                return alternatives(e.body, at, depth) + alternatives(e.orelse, at, depth)
+            if isinstance(e, ast.Name) and depth < 4:
+                defs = fflow.reaching(at, e.id)
+                if defs and all(d.kind == "assign" and d.value is not None for d in defs):
+                    out_: list[tuple[ast.AST, Node]] = []
+                    for d in defs:
+                        out_ += alternatives(d.value, d.node, depth + 1)
+                    return out_
+            return [(e, at)]
+
+        for n, c in fflow.all_calls():
+            if prog.resolve_call(ft, c) == [wp]:
+                b = bind_call(wp, c)
+                for pname in ("initial_indent", "subsequent_indent"):
+                    a = b.get(pname)
+                    if a is None:
+                        continue
+                    missing = [norm(e_)[:50] for e_, at_ in alternatives(a, n) if "extra_indent" not in prog.slice(ft, e_, at_).params()]
+                    ctx.ob("R-ACCT", f"{ft.qual} -> {wp.qual} :: {pname} carries the extra indent", not missing,
+                           f"every line of every paragraph starts with the caller's extra_indent; `{pname}` can be {missing}, which is built without it",
+                           where(ft, c))
     # wrap_paragraph -> wrap_paragraph_lines: initial_column = initial_column + len(initial_indent); subsequent_offset = len(subsequent_indent)
     flow = prog.flow(wp)
     for n, c in flow.all_calls():
@@ -1235,6 +1263,24 @@ def check_accounting(ctx: Ctx, markdown_only: bool = False) -> None:
                    "short previous line it may be merged into" + detail, where(sw, c))
     # inside the fill loop: fit test and reset
     flow = prog.flow(wl)
+    # a line is final once it has been measured against the width: nothing rewrites the returned lines afterwards
+    returned = {r.ast.value.id for r in flow.cfg.returns() if isinstance(r.ast.value, ast.Name)}
+    fill_heads = [h for h in flow.cfg.nodes if h.kind == "for"]
+    for n in flow.cfg.nodes:
+        if n.kind != "stmt" or not isinstance(n.ast, (ast.Assign, ast.AugAssign)):
+            continue
+        tgts = n.ast.targets if isinstance(n.ast, ast.Assign) else [n.ast.target]
+        for t_ in tgts:
+            hit = None
+            if isinstance(t_, ast.Subscript) and isinstance(t_.value, ast.Name) and t_.value.id in returned:
+                hit = t_.value.id
+            elif isinstance(t_, ast.Name) and t_.id in returned and isinstance(n.ast, ast.Assign) and any(
+                    isinstance(x, ast.Name) and x.id == t_.id and isinstance(x.ctx, ast.Load) for x in ast.walk(n.ast.value)):
+                hit = t_.id
+            if hit is not None and fill_heads and not any(n in flow.loop_body_nodes(h) for h in fill_heads):
+                ctx.ob("R-ACCT", f"{wl.qual} :: `{norm(n.ast)[:60]}` rewrites measured lines", False,
+                       f"the lines in `{hit}` were filled against the width word by word; a pass that rewrites them afterwards (escaping, "
+                       "padding, re-joining) changes their length without the fit test seeing it", where(wl, n))
     def is_fit(e: ast.AST) -> bool:
         return isinstance(e, ast.Compare) and len(e.ops) == 1 and isinstance(e.ops[0], (ast.LtE, ast.Lt)) and "width" in norm(e.comparators[0])
 
